@@ -762,6 +762,46 @@ func init() {
 		}
 		return nil
 	})
+	// sync.Pool: a LIFO free list per receiver (one of the behaviours the real
+	// pool can show: no GC in between, one P); New is the struct's last field.
+	poolList := func(fr *frame, recv value) *[]value {
+		m := fr.m
+		if m.objs == nil {
+			m.objs = map[string]value{}
+		}
+		k := fmt.Sprintf("syncpool%p", recv.(*value))
+		if c, ok := m.objs[k]; ok {
+			return c.(*[]value)
+		}
+		l := new([]value)
+		m.objs[k] = l
+		return l
+	}
+	reg("(*sync.Pool).Get", func(fr *frame, a []value) value {
+		l := poolList(fr, a[0])
+		if n := len(*l); n > 0 {
+			v := (*l)[n-1]
+			*l = (*l)[:n-1]
+			return v
+		}
+		st := (*a[0].(*value)).(structure)
+		newFn := st[len(st)-1]
+		if newFn == nil {
+			return iface{}
+		}
+		if c, ok := newFn.(*closure); ok && c == nil {
+			return iface{}
+		}
+		return fr.m.call(fr, token.NoPos, newFn, nil)
+	})
+	reg("(*sync.Pool).Put", func(fr *frame, a []value) value {
+		if x, ok := a[1].(iface); ok && x.t == nil {
+			return nil
+		}
+		l := poolList(fr, a[0])
+		*l = append(*l, a[1])
+		return nil
+	})
 	reg("(*sync.WaitGroup).Add", func(fr *frame, a []value) value {
 		cell := a[0].(*value)
 		cnt := fr.m.wgCount(cell)
